@@ -308,10 +308,11 @@ def r8(ctx):
             if not tests:
                 continue
             ecls = m.classes.get(cname.replace("Decoder", "Encoder"))
-            stride = any("repeat_count" in norm_text(t.test) or "repeat_length" in norm_text(t.test) for t in tests)
             hci = ctx.repo.resolve_class(m, fn.args.args[2].annotation) if fn.args.args[2].annotation is not None else None
             if hci is None:
                 continue
+            # by the kind of header the decoder receives, not by the spelling of its test
+            stride = {"repeat_count", "repeat_length"} <= {n_ for n_, _, _ in hci.fields}
 
             def val(fields):
                 return DCVal(hci, fields)
@@ -406,10 +407,20 @@ def r2(ctx):
                     checks[k] = True
     for k, v in checks.items():
         ctx.check(v, R, f"at5:HeaderDecoder:rejects[{k}]", hm, dec.node, f"`{k}` raises DecodeError before a header is returned", "check missing or not dominating the return")
+    # ... and for nothing else: every header with the right prefixes and consistent lengths is a header (addresses, packet id and
+    # message type are not the header codec's business - frames for other clients or of unknown types are delivered / skipped upstream)
+    rej5 = set()
+    for t in dec.tests(lambda e: isinstance(e, ast.Compare)):
+        te = _Slots().visit(dec.expand(t.ast, t))
+        if any(same_relation(ctx.repo, hm, te, ast.parse(slot_form[k], mode="eval").body) for k in checks):
+            rej5.add(dec.branch(t, "true").id)
+    extra = [n for n in g.nodes if n.kind == "stmt" and isinstance(n.ast, ast.Raise) and not any(g.dominates(b_, n.id) for b_ in rej5)]
+    ctx.check(not extra, R, "at5:HeaderDecoder:rejects-nothing-else", hm, (extra[0].ast if extra else dec.node), "a header is refused only for a wrong prefix or inconsistent lengths", f"`{norm_text(extra[0].ast)[:80]}` at line {extra[0].lineno} refuses headers the protocol allows" if extra else "")
     h4 = ctx.repo.module("pyairtouch.at4.comms.hdr")
     d4 = Fn(ctx.repo, h4, "HeaderDecoder.decode")
     ctx.fn(h4, "HeaderDecoder.decode")
     ok = False
+    rej4 = set()
     for t in d4.tests(lambda e: isinstance(e, ast.Compare)):
         te = _Slots().visit(d4.expand(t.ast, t))
         # `if prefix != P: raise` or `if prefix == P: return ...` followed by the raise: the mismatch branch never returns normally
@@ -417,6 +428,9 @@ def r2(ctx):
             if same_relation(ctx.repo, h4, te, ast.parse(want, mode="eval").body):
                 reach = d4.cfg.reachable(d4.branch(t, label).id, labels=NONEXC)
                 ok = ok or d4.cfg.exit.id not in reach
+                rej4.add(d4.branch(t, label).id)
+    extra = [n for n in d4.cfg.nodes if n.kind == "stmt" and isinstance(n.ast, ast.Raise) and not any(d4.cfg.dominates(b_, n.id) for b_ in rej4)]
+    ctx.check(not extra, R, "at4:HeaderDecoder:rejects-nothing-else", h4, (extra[0].ast if extra else d4.node), "a header is refused only for a wrong prefix", f"`{norm_text(extra[0].ast)[:80]}` at line {extra[0].lineno} refuses headers the protocol allows" if extra else "")
     ctx.check(ok, R, "at4:HeaderDecoder:rejects[prefix != _PREFIX]", h4, d4.node, "a wrong prefix raises DecodeError", "prefix not checked")
     for gen, name, want in (("at4", "_PREFIX", b"\x55\x55"), ("at5", "_OUTER_HEADER_PREFIX", b"\x55\x55\x55\xab"), ("at5", "_INNER_HEADER_PREFIX", b"\x55\x55\x55\xaa")):
         mm = ctx.repo.module(f"pyairtouch.{gen}.comms.hdr")
